@@ -313,14 +313,16 @@ Print Assumptions C06_wrong_phase_mass_count_loads_then_rejects.
    On the floating-point instance of the same model text, with c = units.FL_TO_METERS as a double: 230 * c / c > 230, and
    a validated table whose top level is 230 rejects the state "level 230 in metres, tabulated mass" as out of bounds. *)
 Theorem C06_node_exact_in_metres_binary64_refuted :
-  exists (rows : list (row FNum)) (r : row FNum),
-    @validate FNum swF (@subset FNum Cruise rows) = None /\
-    In r (@subset FNum Cruise rows) /\
-    PrimFloat.ltb (r_fl r) (@alt_to_fl_div FNum FLM_f (PrimFloat.mul (r_fl r) FLM_f)) = true /\
-    @evaluate FNum swF (@alt_to_fl_div FNum FLM_f) rows Cruise (PrimFloat.mul (r_fl r) FLM_f) (@MVal FNum (r_mass r))
-      = @Rej FNum (EBounds 0) /\
-    @evaluate FNum swF (fun x => x) rows Cruise (r_fl r) (@MVal FNum (r_mass r)) = @Ok FNum (r_tas r) (r_rocd r) (r_ff r).
-Proof. exact (ex_intro _ w_f230 (ex_intro _ (@mkRow FNum 230 2 6 0 5)%float node_exact_in_metres_binary64_refuted)). Qed.
+  exists (rows : list (row FNum)) (fl m t rc ff : float),
+    is_none (@validate FNum swF (@subset FNum Cruise rows)) = true /\
+    has_row (@subset FNum Cruise rows) fl m t rc ff = true /\
+    PrimFloat.ltb fl (@alt_to_fl_div FNum FLM_f (PrimFloat.mul fl FLM_f)) = true /\
+    is_rej_bounds0 (@evaluate FNum swF (@alt_to_fl_div FNum FLM_f) rows Cruise (PrimFloat.mul fl FLM_f) (@MVal FNum m)) = true /\
+    is_ok_with (@evaluate FNum swF (fun x => x) rows Cruise fl (@MVal FNum m)) t rc ff = true.
+Proof.
+  exact (ex_intro _ w_f230 (ex_intro _ 230%float (ex_intro _ 2%float (ex_intro _ 6%float (ex_intro _ 0%float
+          (ex_intro _ 5%float node_exact_in_metres_binary64_refuted)))))).
+Qed.
 Print Assumptions C06_node_exact_in_metres_binary64_refuted.
 
 (* ---- the behaviour before the repairs, kept as documentation of the findings ---- *)
